@@ -128,12 +128,24 @@ def run(prog: Program, res: Result, tier: str) -> None:
     else:
         res.bad("R4", fn, lp.call, f"the gulp handed to read_plan is not provably an integer multiple of the time factor {tfac}: "
                 f"groups of {tfac} samples would straddle block boundaries", key=key)
-    guards = [s for s in body_walk(fn.node) if isinstance(s, ast.If) and always_raises(s.body)
-              and norm(s.test) in (f"self.header.nchans % {ffac} != 0", f"self.header.nchans % {ffac}")]
+    from ..pathcond import path_conditions, rejection
     key = "downsample:ffactor-guard"
     preps = prep_calls(fn)
-    if guards and all(op.cfg.dominates(op.cfg.node_for(guards[0]), op.cfg.node_for(p)) for p in preps):
-        res.ok("R4", fn, guards[0], "a frequency factor that does not divide nchans is rejected before the output file is created", key=key)
+    pcd = path_conditions(op.flow)
+
+    def divides(e, pol):
+        """the fact `nchans % ffactor == 0` in any spelling"""
+        t = e
+        if isinstance(t, ast.Compare) and len(t.ops) == 1 and norm(t.comparators[0]) == "0" and isinstance(t.ops[0], (ast.Eq, ast.NotEq)):
+            pol = pol if isinstance(t.ops[0], ast.Eq) else not pol
+            t = t.left
+        else:
+            pol = not pol   # truthiness of the remainder
+        return pol and isinstance(t, ast.BinOp) and isinstance(t.op, ast.Mod) and norm(t.left) == "self.header.nchans" and norm(t.right) == ffac
+
+    facts = [pcd.truth(p, divides) for p in preps]
+    if preps and all(f is not None and rejection(pcd, f) is not None for f in facts):
+        res.ok("R4", fn, preps[0], "a frequency factor that does not divide nchans is rejected before the output file is created", key=key)
     else:
         res.bad("R4", fn, fn.node, "no guard rejects a non-dividing frequency factor before the output is created", construct="downsample", key=key)
 
@@ -199,11 +211,12 @@ def run(prog: Program, res: Result, tier: str) -> None:
         _written_is(res, op, lp, name, lambda a, c, lp=lp: norm(a) == lp.data, "the block exactly as read")
     op, lp = _single_loop(prog, "extract_samps")
     fn = op.fn
-    g = [s for s in body_walk(fn.node) if isinstance(s, ast.If) and always_raises(s.body)
-         and norm(s.test) == "start < 0 or start + nsamps > self.header.nsamples"]
+    from ..pathcond import guarded
     key = "extract_samps:range-guard"
-    if g and all(op.cfg.dominates(op.cfg.node_for(g[0]), op.cfg.node_for(p)) for p in prep_calls(fn)):
-        res.ok("R4", fn, g[0], "an out-of-range sample selection is rejected before the output is created", key=key)
+    P_ = lambda t: PolyEnv().poly(ast.parse(t, mode="eval").body)  # noqa: E731
+    okg, whyg = guarded(op.flow, prep_calls(fn), [("<=0", P_("-start")), ("<=0", P_("start + nsamps - self.header.nsamples"))], exc="ValueError")
+    if okg:
+        res.ok("R4", fn, fn.node, "an out-of-range sample selection is rejected before the output is created", key=key, construct="extract_samps")
     else:
         res.bad("R4", fn, fn.node, "extract_samps does not reject an out-of-range selection before creating the output", construct="extract_samps", key=key)
 
